@@ -101,6 +101,13 @@ var props = map[string]propMeta{
 		Probes:      []string{"answered_request", "answered_ping", "subscribe_error_mapped", "quit_closed_during_request"},
 		QuickS:      20, ThoroughS: 300,
 	},
+	"C12": {
+		Level: "fault_enumeration",
+		Rule: "family closers: seeded runs of the general flow (publishers, requesters, inbound traffic, fault mix) with 1-3 Close/Disconnect invocations (nil, open and closed quit) started at drawn steps, the later ones right after the first (concurrent); family close-sweep: for a sampled base run of N steps the same seed is re-run with the first closer started at every step 1..min(N,400). Oracles: each call returns (bounded in simulated time and steps) without panic; afterwards every method returns ErrClosed twice, ReadSlices reports ErrClosed, Offline released and Online blocked at every later step and never both released, pending exchanges received ErrClosed and stay open, every connection closed, a successful Disconnect left DISCONNECT as the last packet, no goroutine of the library left (stack census of the bubble)." + distinctRule + " non-trivial = a closer landed while dialing, awaiting CONNACK, resending, with a writer in flight or offline",
+		Assumptions: append([]string{"the close-point sweep is complete over the steps of each sampled base run (up to 400), not over all base runs"}, flowAssumptions...),
+		Probes:      []string{"closer_never-connected", "closer_dialing", "closer_awaiting-connack", "closer_resending", "closer_online", "closer_online-writer-in-flight", "closer_offline", "closer_already-closed", "post_close_probe", "exchange_got_errclosed", "disconnect_succeeded"},
+		QuickS:      25, ThoroughS: 400,
+	},
 	"C14": {
 		Level: "exploration",
 		Rule: "seeded runs of every request method against every client state reached by the fault mix, with quit timing drawn; oracle over every API return: documented class per method, not-submitted classes leave no byte of the request's unique marker on any connection, quit classes only after quit, rejected persisted publishes never transmitted." + distinctRule + " non-trivial = a fault fired and a limbo or not-submitted class was returned",
